@@ -71,6 +71,25 @@ theorem weights : contactWeights P.p0.v P.p1.v P.p2.v P.p3.v ⟨1, 0, 0⟩ =
   simp only [baryMain, V3.dot_def, cross_def, P, Cex.p0, q1, q2, q3]
   norm_num
 
+theorem main_sum : sum4 (baryMain P.p0.v P.p1.v P.p2.v P.p3.v) = 4 := by
+  simp only [sum4, baryMain, V3.dot_def, cross_def, P, Cex.p0, q1, q2, q3]; norm_num
+
+/-- the portal is not degenerate in the sense of the repaired `_contact_position` -/
+theorem not_degenerate : ¬ ContactDegenerate P ⟨1, 0, 0⟩ := by
+  have hE : (EPS : ℝ) < 1 := by unfold EPS D3.Gen.utils__EPSILON; norm_num
+  intro h
+  have := h.1
+  rw [main_sum] at this
+  linarith
+
+theorem contact : contactPosition P ⟨1, 0, 0⟩ = .ok
+    (V3.smul 0.5 (comb4 (3 / 4, 1 / 8, 1 / 16, 1 / 16) P.p0.a P.p1.a P.p2.a P.p3.a +
+      comb4 (3 / 4, 1 / 8, 1 / 16, 1 / 16) P.p0.b P.p1.b P.p2.b P.p3.b), 0) := by
+  rw [contactPosition_split, if_neg not_degenerate]
+  unfold contactPosition_asIs_before_fix
+  rw [weights]
+  rfl
+
 /-- the run: one pass through the loop, tolerance exit, face region, main contact branch -/
 theorem run (maxIter : ℕ) : ∃ i : PenInfo ℝ,
     findPenetrationInfo Cex.sup P 1 maxIter = .ok i ∧ i.exit = 0 ∧ i.tri = 6 ∧ i.cpos = 0 ∧
@@ -79,11 +98,11 @@ theorem run (maxIter : ℕ) : ∃ i : PenInfo ℝ,
   have hpen : penetrationInfo P = .ok (3, ⟨3, 0, 0⟩,
       V3.smul 0.5 (comb4 (3 / 4, 1 / 8, 1 / 16, 1 / 16) P.p0.a P.p1.a P.p2.a P.p3.a +
         comb4 (3 / 4, 1 / 8, 1 / 16, 1 / 16) P.p0.b P.p1.b P.p2.b P.p3.b), 6, 0, false) := by
-    unfold penetrationInfo contactPosition
+    unfold penetrationInfo
     have hp : pointToTriangle (V3.zero : V) P.p1.v P.p2.v P.p3.v =
         .ok (6, V3.norm ((V3.zero : V) - ⟨3, 0, 0⟩), ⟨3, 0, 0⟩) := ptt
     have hd : portalDirection P.p1 P.p2 P.p3 = ⟨1, 0, 0⟩ := dir
-    rw [hp, hd, weights, depth3]
+    rw [hp, hd, contact, depth3]
     have habs : ¬ absS (3 : ℝ) < EPS := by rw [absS_real]; norm_num; linarith
     simp only [bind, Except.bind, pure, Except.pure, habs, decide_false, Bool.false_eq_true, if_false]
   have hrun : findPenetrationInfo Cex.sup P 1 maxIter =
@@ -105,6 +124,57 @@ theorem run (maxIter : ℕ) : ∃ i : PenInfo ℝ,
     rfl
   refine ⟨_, hrun.trans hfin, rfl, rfl, rfl, rfl, rfl, ?_, rfl⟩
   exact normVector_ex 3 (by norm_num)
+
+/-! ### a small exact degenerate portal (before / after the repair 045c18e)
+
+The shape of the witness of F-mpr-degenerate-portal-nan: `_discover_portal` ran into its
+iteration cap with a repeated vertex (`v[1] = v[3]`) while `v[2]` is the origin (the support
+point of `A ⊖ B` in the contact direction of an exactly touching pair). -/
+namespace Deg
+
+def r0 : SP ℝ := ⟨⟨-1, 0, 0⟩, ⟨0, 0, 0⟩, ⟨1, 0, 0⟩⟩
+def r1 : SP ℝ := ⟨⟨1, 0, 0⟩, ⟨2, 0, 0⟩, ⟨1, 0, 0⟩⟩
+def r2 : SP ℝ := ⟨⟨0, 0, 0⟩, ⟨1, 1, 0⟩, ⟨1, 1, 0⟩⟩
+/-- rows 1 and 3 coincide, row 2 is the origin -/
+def P : Portal ℝ := ⟨r0, r1, r2, r1⟩
+
+theorem dir : portalDirection P.p1 P.p2 P.p3 = V3.zero := by
+  unfold portalDirection
+  have : V3.cross (P.p2.v - P.p1.v) (P.p3.v - P.p1.v) = (V3.zero : V) := by
+    apply V3.ext' <;> simp [cross_def, sub_def, zero_def, P, r1, r2]
+  rw [this]; exact normVector_of_zero
+
+theorem main_sum : sum4 (baryMain P.p0.v P.p1.v P.p2.v P.p3.v) = 0 := by
+  simp [sum4, baryMain, V3.dot_def, cross_def, P, r0, r1, r2]
+
+theorem fallback_sum : sum4 (baryFallback P.p1.v P.p2.v P.p3.v V3.zero) = 0 := by
+  simp [sum4, baryFallback, V3.dot_def, cross_def, zero_def, P, r1, r2]
+
+/-- before the repair: `0 / 0` -/
+theorem before : contactPosition_asIs_before_fix P (portalDirection P.p1 P.p2 P.p3) = .error .divZero := by
+  rw [dir]
+  exact contactPosition_before_fix_divZero P V3.zero (by rw [main_sum]; exact EPS_pos) fallback_sum
+
+theorem closest : closestRow P.p1 P.p2 P.p3 = (r2, 2) := by
+  unfold closestRow
+  simp [V3.dot_def, P, r1, r2]
+
+/-- after the repair: the touching point (row 2 is the origin, its two pre-images coincide) -/
+theorem after : contactPosition P (portalDirection P.p1 P.p2 P.p3) = .ok (⟨1, 1, 0⟩, 2) := by
+  have hdeg : ContactDegenerate P V3.zero := by
+    refine ⟨by rw [main_sum]; exact EPS_pos, ?_⟩
+    rw [fallback_sum, absS_real, abs_zero]; exact EPS_pos
+  rw [dir, contactPosition_split, if_pos hdeg]
+  unfold degeneratePos
+  rw [closest]
+  congr 2
+  apply V3.ext' <;> simp only [smul_def, add_def, r2, half_real] <;> norm_num
+
+/-- the rows have the form `a − b` (as every row produced by `minkowski.support_function`) -/
+theorem rows_diff : r1.v = r1.a - r1.b ∧ r2.v = r2.a - r2.b := by
+  constructor <;> apply V3.ext' <;> norm_num [sub_def, r1, r2]
+
+end Deg
 
 end Ex
 end MprPen
